@@ -2,7 +2,7 @@
    the output state machine and the validators.  (Partial: click, the process and the file system are
    tied by differential runs of the real CLI, see harness/c19.py.) *)
 From Coq Require Import Arith List Bool Lia ZArith QArith.
-From QV Require Import Cli.Ctor Cli.WriteData.
+From QV Require Import Cli.Ctor Cli.WriteData App.Merge Cli.MergeCmd.
 Import ListNotations.
 Open Scope nat_scope.
 
@@ -56,6 +56,52 @@ Theorem c19_never_drops : forall path path_eqb (Hspec : forall a b, path_eqb a b
   o_stdout _ _ o = [data] \/ o_errlog _ _ o = [data] \/ (exists p, output = Some p /\ o_fs _ _ o p = Some data).
 Proof. exact write_never_drops. Qed.
 
+(* the merge command: it emits exactly what app.merge returns for the parsed DATA_FILEs, and has no acceptance
+   condition of its own (exit 0 iff the files exist and parse, app.merge accepts, and the output can be created) *)
+Theorem c19_merge_cmd_accepts : forall path path_eqb content input parse api_merge dir_exists
+  (f : fs path content) ps output ins d, ps <> [] ->
+  parse_all path content input parse f ps = Some ins -> api_merge ins = Some d ->
+  merge_cmd path path_eqb content input parse api_merge dir_exists f ps output
+  = write_data path path_eqb content dir_exists f output d.
+Proof. exact merge_cmd_accepts. Qed.
+Theorem c19_merge_cmd_exit0_iff : forall path path_eqb content input parse api_merge dir_exists
+  (f : fs path content) ps output,
+  o_exit _ _ (merge_cmd path path_eqb content input parse api_merge dir_exists f ps output) = 0 <->
+  ps <> [] /\ exists ins d, parse_all path content input parse f ps = Some ins /\ api_merge ins = Some d /\
+    match output with None => True | Some p => f p = None /\ dir_exists p = true end.
+Proof. exact merge_cmd_exit0_iff. Qed.
+Theorem c19_merge_cmd_failure_untouched : forall path path_eqb content input parse api_merge dir_exists
+  (f : fs path content) ps output,
+  o_exit _ _ (merge_cmd path path_eqb content input parse api_merge dir_exists f ps output) <> 0 ->
+  forall q, o_fs _ _ (merge_cmd path path_eqb content input parse api_merge dir_exists f ps output) q = f q.
+Proof. exact merge_cmd_failure_untouched. Qed.
+(* histories: `merge -o p ps1` followed by `merge p ps2`: the second step reads back the first result and is
+   decided by app.merge alone *)
+Theorem c19_merge_cmd_chain : forall path path_eqb (Hspec : forall a b, path_eqb a b = true <-> a = b)
+  content input parse api_merge dir_exists (f : fs path content) ps1 p ps2 output i1 d1 j1 i2,
+  ps1 <> [] -> f p = None -> dir_exists p = true ->
+  parse_all path content input parse f ps1 = Some i1 -> api_merge i1 = Some d1 -> parse d1 = Some j1 ->
+  ~ In p ps2 -> parse_all path content input parse f ps2 = Some i2 ->
+  let f1 := o_fs _ _ (merge_cmd path path_eqb content input parse api_merge dir_exists f ps1 (Some p)) in
+  o_exit _ _ (merge_cmd path path_eqb content input parse api_merge dir_exists f ps1 (Some p)) = 0 /\
+  merge_cmd path path_eqb content input parse api_merge dir_exists f1 (p :: ps2) output =
+    match api_merge (j1 :: i2) with
+    | Some d => write_data path path_eqb content dir_exists f1 output d
+    | None => mkOut _ _ f1 [] [] 1
+    end.
+Proof. exact merge_cmd_chain. Qed.
+(* CLI outputs merge back losslessly: a merge output is accepted again and unchanged; a merge of merge outputs
+   equals the merge of all the records - per key, in the same row order, and equally erroring *)
+Theorem c19_merge_output_reaccepted : forall l t, M_mergel [] l = Some t -> M_mergel [] t = Some t.
+Proof. exact merge_output_reaccepted. Qed.
+Theorem c19_merge_history : forall l1 l2 t1 t2, M_mergel [] l1 = Some t1 -> M_mergel [] l2 = Some t2 ->
+  match M_mergel [] (t1 ++ t2), M_mergel [] (l1 ++ l2) with
+  | Some a, Some b => (forall k, M_lookup k a = M_lookup k b) /\ map fst a = map fst b
+  | None, None => True
+  | _, _ => False
+  end.
+Proof. exact merge_history. Qed.
+
 (* examples: code-like argument text is only ever handed to the literal evaluator *)
 Example c19_ex_parse :
   parse_spec [116;111;114;105;99;40;51;44;32;51;41] (* toric(3, 3) *) = Some ([116;111;114;105;99], Some [51;44;32;51]) /\
@@ -68,3 +114,6 @@ Proof. vm_compute. repeat split. Qed.
 Print Assumptions c19_ctor_grammar. Print Assumptions c19_plain_name. Print Assumptions c19_literal_only.
 Print Assumptions c19_usage_errors. Print Assumptions c19_write_existing. Print Assumptions c19_missing_dir.
 Print Assumptions c19_write_new. Print Assumptions c19_never_drops.
+Print Assumptions c19_merge_cmd_accepts. Print Assumptions c19_merge_cmd_exit0_iff.
+Print Assumptions c19_merge_cmd_failure_untouched. Print Assumptions c19_merge_cmd_chain.
+Print Assumptions c19_merge_output_reaccepted. Print Assumptions c19_merge_history.
